@@ -36,6 +36,7 @@ type upload struct {
 	body []byte
 	ok   bool
 	key  string
+	end  time.Duration // when a stalled request gave up (0: answered at once or after a plain delay)
 }
 
 type s3rt struct {
@@ -44,6 +45,7 @@ type s3rt struct {
 	start     time.Time
 	outcomes  []string
 	slowFirst time.Duration
+	stallNth  int // 1-based: this request is never answered; it ends when its context does
 }
 
 func (rt *s3rt) RoundTrip(req *http.Request) (*http.Response, error) {
@@ -59,8 +61,18 @@ func (rt *s3rt) RoundTrip(req *http.Request) (*http.Response, error) {
 	}
 	rt.mu.Lock()
 	nth := len(rt.uploads)
-	rt.uploads = append(rt.uploads, upload{at: time.Since(rt.start), body: body, ok: out != "fail", key: req.URL.Path})
+	stall := rt.stallNth == nth+1
+	rt.uploads = append(rt.uploads, upload{at: time.Since(rt.start), body: body, ok: out != "fail" && !stall, key: req.URL.Path})
 	rt.mu.Unlock()
+	if stall {
+		// a bucket that accepts the request and never answers: only the request's own deadline ends it
+		<-req.Context().Done()
+		rt.mu.Lock()
+		rt.uploads[nth].end = time.Since(rt.start)
+		rt.mu.Unlock()
+		sched.Seam("s3.stalled-request-gives-up")
+		return nil, req.Context().Err()
+	}
 	if out == "slow" || (rt.slowFirst > 0 && nth == 0) {
 		// a slow bucket: the request stays in flight for a while (virtual time)
 		d := rt.slowFirst
@@ -82,6 +94,7 @@ type scen struct {
 	outcomes  []string
 	cancelAt  bool          // a cancel event that may fire at any moment
 	slowFirst time.Duration // the first upload stays in flight this long
+	stallNth  int           // this upload (1-based) is never answered
 	big       bool          // the initial database holds a large secret (so a later delete shrinks the file)
 	reopen    bool          // the database is closed and opened again from its file before the backup task starts
 	horizon   time.Duration
@@ -125,7 +138,7 @@ func (sc scen) harness() func() *sched.Harness {
 				}
 				b, _ := os.ReadFile(path)
 				versions = append(versions, b)
-				rt = &s3rt{start: start, outcomes: sc.outcomes, slowFirst: sc.slowFirst}
+				rt = &s3rt{start: start, outcomes: sc.outcomes, slowFirst: sc.slowFirst, stallNth: sc.stallNth}
 				client := s3.New(s3.Options{
 					Region:       "us-east-1",
 					Credentials:  credentials.NewStaticCredentialsProvider("AKIDEXAMPLE", "secret", ""),
@@ -265,8 +278,8 @@ func (sc scen) harness() func() *sched.Harness {
 				}
 				// a failed upload is retried (when the server keeps running long enough)
 				for i, u := range ups {
-					if !u.ok && i == len(ups)-1 && cancelledAt-u.at > 4*time.Minute {
-						return fmt.Errorf("C17/failed-upload-not-retried: the upload at %v failed and was never retried although the server ran until %v", u.at, cancelledAt)
+					if !u.ok && i == len(ups)-1 && cancelledAt-max(u.at, u.end) > 4*time.Minute {
+						return fmt.Errorf("C17/failed-upload-not-retried: the upload begun at %v failed (at %v) and was never retried although the server ran until %v", u.at, max(u.at, u.end), cancelledAt)
 					}
 				}
 				return nil
@@ -278,6 +291,7 @@ func (sc scen) harness() func() *sched.Harness {
 func TestCheck(t *testing.T) {
 	env := report.FromEnv()
 	rep := env.New("C17")
+	defer rep.Guard(env)
 	rep.Assumptions = []string{
 		"S3 is an in-memory round tripper behind a genuine *s3.Client (SDK retries switched off so that the harness owns all timing); the loop runs through the verif hook with an injected client",
 		"virtual time advances only when every thread is blocked; a task that never blocks is reported as a busy loop when it passes 400 scheduling points without the clock advancing",
@@ -293,6 +307,8 @@ func TestCheck(t *testing.T) {
 		{name: "idle database opened from an existing file (server restart)", reopen: true, horizon: 200 * time.Second},
 		{name: "file shrinks between uploads (large secret deleted at 30s, put at 100s)", writer: []string{"sleep:30s", "delbig", "sleep:70s", "put"}, big: true, horizon: 400 * time.Second},
 		{name: "first upload in flight for 90s, then an idle database", slowFirst: 90 * time.Second, horizon: 400 * time.Second},
+		{name: "first upload never answered (ends at its own deadline), then an idle database", stallNth: 1, horizon: 640 * time.Second},
+		{name: "second upload never answered, one write at 30s", writer: []string{"sleep:30s", "put"}, stallNth: 2, horizon: 720 * time.Second},
 		{name: "first upload in flight for 90s, writes at 30s and 100s", writer: []string{"sleep:30s", "put", "sleep:70s", "put"}, slowFirst: 90 * time.Second, horizon: 520 * time.Second},
 	}
 	var list []hx.Scenario
